@@ -162,6 +162,27 @@ def h_expand_lemma(cx, n, gap):
 
 # ------------------------------------------------------------------ post-processing level
 
+def abstract_gamma(cx, layout, gsym=None):
+    """Abstraction point: Obs._calc_gamma returns fresh symbols g_{replica,t} for symbolic fluctuations (the pair counts
+    still come from the real code). The definition of g is the Gamma-level obligation (h_gamma_level)."""
+    import pyerrors as pe
+    if cx.mode != 'sym':
+        return
+    gsym = {} if gsym is None else gsym
+    real_cg = pe.Obs._calc_gamma
+
+    def cg(self, deltas, idx, shape, w_max, fft, gapsize):
+        if isinstance(deltas, np.ndarray) and deltas.dtype == object and any(isinstance(v, SV) for v in deltas):
+            rn = [r for r in self.deltas if self.deltas[r] is deltas][0]
+            g = np.array([cx.real('g_%s_%d' % (rn.replace('|', '_'), t)) for t in range(w_max)], dtype=object)
+            cx.assume(g[0] >= 0)     # Gamma(0) is a sum of squares
+            gsym[rn] = g
+            return g
+        return real_cg(self, deltas, idx, shape, w_max, False, gapsize)
+    cx.patch(pe.Obs, '_calc_gamma', cg)
+    return gsym
+
+
 def _pairs(cfgs, t, gap):
     s = set(cfgs)
     return sum(1 for c in cfgs if c + t * gap in s)
